@@ -166,7 +166,12 @@ def _thread_runner(args):
     return results, errors
 
 
-def threaded(modname, fnname, jobs, nthreads=4, switch=1e-6, procs=None):
+class ThreadedHang(Exception):
+    """a pool process that drives the library from several threads did not come back: a call that never returns inside
+    a thread cannot be interrupted from inside the process (no signal-based watchdog there)"""
+
+
+def threaded(modname, fnname, jobs, nthreads=4, switch=1e-6, procs=None, limit=300):
     """Run driver `fnname` of module `modname` over `jobs` with several threads at once inside each of a few pool
     processes (thread switches every microsecond).  Every thread works on its own jobs, files and library objects: what
     one thread does may not show in what another records.  Returns the results in job order."""
@@ -175,7 +180,20 @@ def threaded(modname, fnname, jobs, nthreads=4, switch=1e-6, procs=None):
     procs = procs or max(1, min(core.NCPU // 2, len(jobs) // nthreads))
     groups = [g for g in core.split(list(range(len(jobs))), procs) if g]
     args = [(modname, fnname, [jobs[i] for i in g], min(nthreads, len(g)), switch) for g in groups]
-    outs = _pool(_thread_runner, args)
+    import concurrent.futures
+    ex = ProcessPoolExecutor(len(args))
+    futs = [ex.submit(_thread_runner, a) for a in args]
+    try:
+        outs = [f.result(timeout=limit) for f in futs]
+    except concurrent.futures.TimeoutError:
+        for p in list(getattr(ex, '_processes', {}).values()):
+            try:
+                p.kill()
+            except Exception:
+                pass
+        ex.shutdown(wait=False, cancel_futures=True)
+        raise ThreadedHang('%s.%s driven from %d threads did not finish within %d s' % (modname, fnname, nthreads, limit))
+    ex.shutdown()
     res = [None] * len(jobs)
     for g, (r, errs) in zip(groups, outs):
         if errs:
